@@ -97,6 +97,9 @@ func BuildFunction(x *ast.FuncDecl, file *CodeContainer) *CodeFunction {
 			TypeValue: param.TypeValue,
 		})
 	}
+	if x.Body == nil {
+		return codeFunc
+	}
 	for _, item := range x.Body.List {
 		localVars, _ = BuildMethodCall(codeFunc, item, fields, localVars, file.Imports, file.PackageName)
 	}
